@@ -38,6 +38,10 @@ CLAIMED = {
          "Zero-value part: complete for the API at check time (27 types, 278 pairs on the unchanged tree); methods whose parameters have no nd generator are listed in the generated file. Failed-parse part: two shapes per structure, cut points at field boundaries."),
  "C18": ("Write-set reduction decided by bounded symbolic model checking: after parsing/constructing a value every existing object (receiver graph, input buffer, package-level state) is frozen, one read-only exported operation (generated from the current API) runs, and the executor reports any store, copy, in-place append or map update into a frozen object - for every input content, under two append-growth policies. If no read-only operation writes shared memory, concurrent readers are race-free under the Go memory model and each returns what it returns alone.",
          "Interleavings are not enumerated (the reduction replaces them). Logger, time.Now and the crypto dependency are assumed thread-safe. Values: C01 shapes (2-3 per structure) and small free-form inputs. A write-set finding has no single-run native replay; the replay file holds the input of the path."),
+ "C14": ("Bounded symbolic model checking of constructors with symbolic contents on boundary grids of lengths/counts/flags: constructor ok => validator ok => serialises => parses back with empty remainder to the same bytes; each documented structural defect (key length not matching its type, count out of range, flag/offline mismatch, reserved bits, declared-length mismatch) is rejected by the constructor.",
+         "Signature, Certificate, OfflineSignature, MappingValues/Mapping, KeysAndCert/Destination/RouterIdentity, RouterAddress, RouterInfo, LeaseSet, LeaseSet2, EncryptedLeaseSet. Time-dependent expiry excluded. Three constructor/validator disagreements are recorded as known findings (known_findings.json)."),
+ "C17": ("Bounded symbolic model checking through the real net.ParseIP (net/netip) and strconv.Atoi code: host accessor succeeds iff the standard library parses the host option as an IP literal, returns that address, never reaches a name lookup; port accessor iff decimal 1..65535 in canonical form; helpers agree; option lookup by exact key; static key / IV exactly for 32 / 16 bytes.",
+         "Host strings of 0..3 bytes (thorough: 4, and 7-byte dotted quads), port strings of 0..5 bytes, all contents; addresses built through NewRouterAddress and through the wire parser. net.ResolveIPAddr is a stub that records whether its argument is an IP literal."),
 }
 NA_REASON = "check under construction in this session; it will be claimed once its harnesses run clean on the unchanged tree"
 
